@@ -90,3 +90,133 @@ Section TraceProofs.
     rewrite Hs in T. exact (T Hd).
   Qed.
 End TraceProofs.
+
+(* What "the model followed the event" means: the labels are what the steps do. *)
+Section Labels.
+  Variable H : bytes -> id.
+  Variables (min max : nat) (d : N).
+  Variable data : bytes.
+  Notation step_worker := (step_worker H min max d data).
+  Notation label_worker := (label_worker min max d data).
+
+  Lemma getw_setw_same s i w : i < nworkers s -> getw (setw s i w) i = w.
+  Proof.
+    unfold getw, setw, nworkers. cbn [p_w]. revert i. induction (p_w s) as [|a l IH]; intros i Hi; [cbn in Hi; lia|].
+    destruct i as [|i]; [reflexivity|]. cbn. apply IH. cbn in Hi. lia.
+  Qed.
+
+  Lemma getw_setw_other s i j w : i <> j -> getw (setw s i w) j = getw s j.
+  Proof.
+    unfold getw, setw. cbn [p_w]. revert i j. induction (p_w s) as [|a l IH]; intros i j Hne; [destruct i; reflexivity|].
+    destruct i as [|i], j as [|j]; try reflexivity; [lia|]. cbn. apply IH. lia.
+  Qed.
+
+  Lemma nworkers_setw s i w : nworkers (setw s i w) = nworkers s.
+  Proof.
+    unfold nworkers, setw. cbn [p_w]. revert i. induction (p_w s) as [|a l IH]; intros i; [destruct i; reflexivity|].
+    destruct i; cbn; [reflexivity|f_equal; apply IH].
+  Qed.
+
+  (* a step labelled "send c" appends exactly c to worker i's bucket *)
+  Lemma label_send_sound s i c s' : label_worker s i = LSend c -> step_worker s i = Some s' ->
+    w_emit (getw s' i) = w_emit (getw s i) ++ [c].
+  Proof.
+    unfold PChunkerTrace.label_worker, PChunker.step_worker.
+    destruct (negb (i <? nworkers s)) eqn:Ei; [discriminate|].
+    apply negb_false_iff, Nat.ltb_lt in Ei.
+    destruct (w_pc (getw s i)) as [|c0 prev|c0 n|c0 n| |] eqn:Epc; try discriminate.
+    - destruct (next_chunk min max d data (w_pos (getw s i))) as [c1|]; [|discriminate].
+      intros E E'. injection E as <-. injection E' as <-. rewrite getw_setw_same by exact Ei. reflexivity.
+    - destruct (sync_start (w_sync (getw s (w_next (getw s i)))) <? c_start c0).
+      + destruct (bucket_head (getw s (w_next (getw s i)))); discriminate.
+      + destruct (w_sync (getw s (w_next (getw s i)))) as [m|].
+        * destruct ((c_start c0 =? c_start m) && (c_size c0 =? c_size m)); discriminate.
+        * destruct ((c_start c0 =? 0) && (c_size c0 =? 0)); discriminate.
+    - destruct (bucket_head (getw s (w_next (getw s i)))); discriminate.
+    - destruct (n <? max); [discriminate|].
+      intros E E'. injection E as <-. injection E' as <-. rewrite getw_setw_same by exact Ei. reflexivity.
+  Qed.
+
+  (* a step labelled "recv j v" takes exactly v, the head of bucket j, and makes it j's sync chunk *)
+  Lemma label_recv_sound s i j v s' : label_worker s i = LRecv j v -> step_worker s i = Some s' ->
+    j = w_next (getw s i) /\ bucket_head (getw s j) = Some v /\
+    (i <> j -> j < nworkers s -> w_cons (getw s' j) = S (w_cons (getw s j)) /\ w_sync (getw s' j) = Some v).
+  Proof.
+    unfold PChunkerTrace.label_worker, PChunker.step_worker.
+    destruct (negb (i <? nworkers s)) eqn:Ei; [discriminate|].
+    apply negb_false_iff, Nat.ltb_lt in Ei.
+    destruct (w_pc (getw s i)) as [|c0 prev|c0 n|c0 n| |] eqn:Epc; try discriminate.
+    - destruct (next_chunk min max d data (w_pos (getw s i))); discriminate.
+    - destruct (sync_start (w_sync (getw s (w_next (getw s i)))) <? c_start c0).
+      + destruct (bucket_head (getw s (w_next (getw s i)))) as [v0|] eqn:Eh; [|discriminate].
+        intros E E'. injection E as <- <-. injection E' as <-. split; [reflexivity|]. split; [exact Eh|].
+        intros Hne Hj. rewrite getw_setw_other by exact Hne. rewrite getw_setw_same by exact Hj. split; reflexivity.
+      + destruct (w_sync (getw s (w_next (getw s i)))) as [m|].
+        * destruct ((c_start c0 =? c_start m) && (c_size c0 =? c_size m)); discriminate.
+        * destruct ((c_start c0 =? 0) && (c_size c0 =? 0)); discriminate.
+    - destruct (bucket_head (getw s (w_next (getw s i)))) as [v0|] eqn:Eh; [|discriminate].
+      intros E E'. injection E as <- <-. split; [reflexivity|]. split; [exact Eh|].
+      intros Hne Hj. destruct (is_null H max data v0); injection E' as <-;
+        (rewrite getw_setw_other by exact Hne; rewrite getw_setw_same by exact Hj; split; reflexivity).
+    - destruct (n <? max); discriminate.
+  Qed.
+
+  (* "empty j": the bucket of the next worker had nothing to receive *)
+  Lemma label_empty_sound s i j : label_worker s i = LEmpty j ->
+    j = w_next (getw s i) /\ bucket_head (getw s j) = None.
+  Proof.
+    unfold PChunkerTrace.label_worker.
+    destruct (negb (i <? nworkers s)); [discriminate|].
+    destruct (w_pc (getw s i)) as [|c0 prev|c0 n|c0 n| |]; try discriminate.
+    - destruct (next_chunk min max d data (w_pos (getw s i))); discriminate.
+    - destruct (sync_start (w_sync (getw s (w_next (getw s i)))) <? c_start c0).
+      + destruct (bucket_head (getw s (w_next (getw s i)))) eqn:Eh; [discriminate|]. intros E. injection E as <-. split; [reflexivity|exact Eh].
+      + destruct (w_sync (getw s (w_next (getw s i)))) as [m|].
+        * destruct ((c_start c0 =? c_start m) && (c_size c0 =? c_size m)); discriminate.
+        * destruct ((c_start c0 =? 0) && (c_size c0 =? 0)); discriminate.
+    - destruct (bucket_head (getw s (w_next (getw s i)))) eqn:Eh; [discriminate|]. intros E. injection E as <-. split; [reflexivity|exact Eh].
+    - destruct (n <? max); discriminate.
+  Qed.
+
+  (* "exit": the worker is inactive afterwards; "skip yes/no": the neighbour pointer moves iff yes *)
+  Lemma label_exit_sound s i s' : label_worker s i = LExit -> step_worker s i = Some s' ->
+    w_active (getw s' i) = false /\ w_pc (getw s' i) = Exited.
+  Proof.
+    unfold PChunkerTrace.label_worker, PChunker.step_worker.
+    destruct (negb (i <? nworkers s)) eqn:Ei; [discriminate|].
+    apply negb_false_iff, Nat.ltb_lt in Ei.
+    destruct (w_pc (getw s i)) as [|c0 prev|c0 n|c0 n| |] eqn:Epc; try discriminate.
+    - destruct (next_chunk min max d data (w_pos (getw s i))); [discriminate|].
+      intros _ E'. injection E' as <-. rewrite getw_setw_same by exact Ei. split; reflexivity.
+    - destruct (sync_start (w_sync (getw s (w_next (getw s i)))) <? c_start c0).
+      + destruct (bucket_head (getw s (w_next (getw s i)))); discriminate.
+      + destruct (w_sync (getw s (w_next (getw s i)))) as [m|].
+        * destruct ((c_start c0 =? c_start m) && (c_size c0 =? c_size m)); [|discriminate].
+          intros _ E'. injection E' as <-. rewrite getw_setw_same by exact Ei. split; reflexivity.
+        * destruct ((c_start c0 =? 0) && (c_size c0 =? 0)); [|discriminate].
+          intros _ E'. injection E' as <-. rewrite getw_setw_same by exact Ei. split; reflexivity.
+    - destruct (bucket_head (getw s (w_next (getw s i)))); discriminate.
+    - destruct (n <? max); discriminate.
+  Qed.
+
+  Lemma label_skip_sound s i y s' : label_worker s i = LSkip y -> step_worker s i = Some s' ->
+    w_next (getw s' i) = if y then w_next (getw s (w_next (getw s i))) else w_next (getw s i).
+  Proof.
+    unfold PChunkerTrace.label_worker, PChunker.step_worker.
+    destruct (negb (i <? nworkers s)) eqn:Ei; [discriminate|].
+    apply negb_false_iff, Nat.ltb_lt in Ei.
+    destruct (w_pc (getw s i)) as [|c0 prev|c0 n|c0 n| |] eqn:Epc; try discriminate.
+    - destruct (next_chunk min max d data (w_pos (getw s i))); discriminate.
+    - destruct (sync_start (w_sync (getw s (w_next (getw s i)))) <? c_start c0).
+      + destruct (bucket_head (getw s (w_next (getw s i)))); discriminate.
+      + destruct (w_sync (getw s (w_next (getw s i)))) as [m|].
+        * destruct ((c_start c0 =? c_start m) && (c_size c0 =? c_size m)); discriminate.
+        * destruct ((c_start c0 =? 0) && (c_size c0 =? 0)); discriminate.
+    - destruct (bucket_head (getw s (w_next (getw s i)))); discriminate.
+    - destruct (n <? max); discriminate.
+    - intros E E'. injection E as <-.
+      destruct ((w_next (getw s i) <? nworkers s) && negb (w_active (getw s (w_next (getw s i)))) &&
+                (length (w_emit (getw s (w_next (getw s i)))) <=? w_cons (getw s (w_next (getw s i)))));
+        injection E' as <-; rewrite getw_setw_same by exact Ei; reflexivity.
+  Qed.
+End Labels.
